@@ -1030,7 +1030,7 @@ func (c *compiler) compileFunc(e *Func) error {
 			[3]any{fn.callback, len(e.Args), e.Name},
 			e.Args,
 			true,
-			-1,
+			0, // evaluate the arguments as values, not as paths
 		); err != nil {
 			return err
 		}
